@@ -397,6 +397,26 @@ Definition w_c11_trx_layout (a : list Z) : list Z :=
   | _ => [-999]
   end.
 
+(* sched_trx.c l1sched_configure_ts(): after choosing the layout it allocates one channel state for every lchan type
+   0 .. _L1SCHED_CHAN_MAX-1 whose bit is set in the layout's 64-bit lchan_mask (LAYOUT_HAS_LCHAN), in ascending type order;
+   -EINVAL when there is no layout for the combination or the layout is of another combination *)
+Definition trx_configured (l : layout) : list Z :=
+  filter (fun c => (c <? 64) && Z.testbit (ly_mask l) c) (range 0 tx_CHAN_MAX).
+
+(* [config; tn] -> [0; types with a channel state...] | [-22] (EINVAL) *)
+Definition w_c11_cfg_ts (a : list Z) : list Z :=
+  match a with
+  | [cfg; tn] =>
+      match trx_layout cfg tn with
+      | Some li => match nth_error tx_layouts (Z.to_nat li) with
+                   | Some l => if ly_cfg l =? cfg then 0 :: trx_configured l else [-22]
+                   | None => [-998]
+                   end
+      | None => [-22]
+      end
+  | _ => [-999]
+  end.
+
 (* [i] -> row i of the specification table as task, combination, tn rule (0 all, 1 even, 2 odd), mode (0 Block, 1 BlockDL, 2 Tch),
    lchan, SACCH lchan or -1; [] past the end (lets the Python oracle check that it uses the same table) *)
 Definition w_c11_row (a : list Z) : list Z :=
